@@ -2,6 +2,7 @@
 #![allow(unused)]
 use super::*;
 use crate::verif_support::*;
+use crate::common::frame::FrameDestination;
 
 //@ props: C06
 //@ fns: crc::Crc<u16>::digest_with_initial, crc::Digest<u16>::update (crc16::update_table::<1>), Digest::finalize, crc::CRC_16_MODBUS table
@@ -42,4 +43,268 @@ fn c06_rodbus_crc_constant() {
     let kat = b"123456789";
     assert!(ref_crc(kat) == 0x4B37, "[C06] bit-wise reference reproduces the catalogue check value");
     kani::cover!(d[0] == 0x2A, "reached");
+}
+
+use crate::common::buffer::verif_buffer::{begin_of, buffer_with, invariant, CAP};
+
+#[derive(Clone, Copy, PartialEq)]
+enum RefRtu {
+    NeedMore,
+    /// unknown function code: the length cannot be determined
+    UnknownFunction,
+    /// length determined, frame longer than the protocol allows
+    TooBig,
+    /// complete frame of `n` bytes (address + PDU + CRC) whose CRC does not verify
+    BadCrc(usize),
+    /// complete frame of `n` bytes with a correct CRC
+    Frame(usize),
+}
+
+/// PDU body length (after the function code) from the function code and direction; None = needs the
+/// byte-count field at `offset` first
+fn ref_len_mode(request: bool, fc: u8) -> Option<Result<usize, usize>> {
+    if !request && fc & 0x80 != 0 {
+        return Some(Ok(1));
+    }
+    match (request, fc) {
+        (true, 1..=6) => Some(Ok(4)),
+        (true, 15 | 16) => Some(Err(5)),
+        (false, 1..=4) => Some(Err(1)),
+        (false, 5 | 6 | 15 | 16) => Some(Ok(4)),
+        _ => None,
+    }
+}
+
+/// reference RTU framing of the first frame in `s[..len]`
+fn ref_rtu(request: bool, s: &[u8], len: usize) -> RefRtu {
+    if len < 2 {
+        return RefRtu::NeedMore;
+    }
+    let body = match ref_len_mode(request, s[1]) {
+        None => return RefRtu::UnknownFunction,
+        Some(Ok(n)) => n,
+        Some(Err(offset)) => {
+            // byte count is the last byte of the fixed part
+            if len < 1 + 1 + offset {
+                return RefRtu::NeedMore;
+            }
+            offset + s[1 + offset] as usize
+        }
+    };
+    if 1 + body > 253 {
+        return RefRtu::TooBig;
+    }
+    let n = 1 + 1 + body + 2;
+    if len < n {
+        return RefRtu::NeedMore;
+    }
+    let mut crc = 0xFFFFu16;
+    let mut i = 0;
+    while i < n - 2 {
+        crc = tab_crc_step(crc, s[i]);
+        i += 1;
+    }
+    if s[n - 2] == crc as u8 && s[n - 1] == (crc >> 8) as u8 {
+        RefRtu::Frame(n)
+    } else {
+        RefRtu::BadCrc(n)
+    }
+}
+
+fn rtu_parse_kernel<const N: usize>(request: bool) {
+    let s: [u8; N] = kani::any();
+    let len: usize = kani::any();
+    kani::assume(len <= N);
+    let begin: usize = kani::any();
+    kani::assume(begin + len <= CAP);
+    let level = any_decode_level();
+    let mut buf = buffer_with(&s, len, begin);
+    let mut p = if request { RtuParser::new_request_parser() } else { RtuParser::new_response_parser() };
+    let r = p.parse(&mut buf, level.frame);
+    let want = ref_rtu(request, &s, len);
+    assert!(invariant(&buf), "[C06] buffer indices stay valid");
+    match (&r, want) {
+        (Ok(None), RefRtu::NeedMore) => {}
+        (Err(e), RefRtu::UnknownFunction) => assert!(matches!(e, RequestError::BadFrame(FrameParseError::UnknownFunctionCode(_))), "[C06] unknown function code is a framing error"),
+        (Err(e), RefRtu::TooBig) => assert!(matches!(e, RequestError::BadFrame(FrameParseError::FrameLengthTooBig(..))), "[C06] oversized ADU is refused"),
+        (Err(e), RefRtu::BadCrc(_)) => assert!(matches!(e, RequestError::BadFrame(FrameParseError::CrcValidationFailure(..))), "[C06] a frame whose CRC does not verify is never acted on"),
+        (Ok(Some(f)), RefRtu::Frame(n)) => {
+            let dest = if s[0] == 0 { FrameDestination::Broadcast } else { FrameDestination::UnitId(UnitId::new(s[0])) };
+            assert!(f.header.destination == dest, "[C17] address 0 is broadcast, any other byte is a unit id");
+            assert!(f.header.tx_id.is_none());
+            assert!(f.payload().len() == n - 3, "[C06] frame length derived from function code and byte count");
+            let k: usize = kani::any();
+            kani::assume(k < n - 3 && 1 + k < N);
+            assert!(f.payload()[k] == s[1 + k], "[C06] PDU bytes");
+            assert!(begin_of(&buf) - begin == n, "[C06] exactly one frame is consumed");
+            assert!(matches!(p.state, ParseState::Start), "[C06] parser ready for the next frame");
+        }
+        (Ok(Some(_)), _) => assert!(false, "[C06] a frame was accepted that the reference rejects (CRC / length)"),
+        (Ok(None), _) => assert!(false, "[C06] parser waits although the frame is decidable"),
+        (Err(_), _) => assert!(false, "[C06] a valid frame was rejected"),
+    }
+    kani::cover!(matches!(want, RefRtu::Frame(_)) && s[0] == 0, "broadcast frame accepted");
+    kani::cover!(matches!(want, RefRtu::Frame(n) if n > 8), "variable-length frame accepted");
+    kani::cover!(matches!(want, RefRtu::BadCrc(_)), "CRC mismatch");
+    kani::cover!(want == RefRtu::NeedMore && len >= 7, "waiting for the byte count / trailer");
+}
+
+//@ props: C06 C07 C17 C20
+//@ peer: yes
+//@ timeout: 1500
+//@ fns: serial::frame::RtuParser::parse (all three states), RtuParser::length_mode, common::buffer::ReadBuffer::peek_at / read / read_u16_le, crc::Crc<u16>::digest / update / finalize, common::frame::Frame::set
+//@ bounds: request direction, every stream of 0..=10 bytes at EVERY buffer offset: the six fixed-length requests (8-byte frames) and write-multiple with <= 1 data byte; all decode levels; unwind 12
+//@ outside: longer variable-length frames (thorough: 13 bytes); serial driver
+#[kani::proof]
+#[kani::unwind(12)]
+fn c06_rtu_parse_request_q() {
+    rtu_parse_kernel::<10>(true);
+}
+
+//@ props: C06 C07 C20
+//@ peer: yes
+//@ timeout: 1500
+//@ fns: serial::frame::RtuParser::parse, RtuParser::length_mode (response direction, exception replies)
+//@ bounds: response direction, every stream of 0..=8 bytes at every buffer offset: exception replies (5 bytes), read replies with <= 3 data bytes, write echoes; unwind 10
+#[kani::proof]
+#[kani::unwind(10)]
+fn c06_rtu_parse_response_q() {
+    rtu_parse_kernel::<8>(false);
+}
+
+//@ props: C06 C07
+//@ peer: yes
+//@ tier: thorough
+//@ timeout: 3600
+//@ fns: serial::frame::RtuParser::parse
+//@ bounds: request direction, streams of 0..=13 bytes (write-multiple with up to 4 data bytes); unwind 15
+#[kani::proof]
+#[kani::unwind(15)]
+fn c06_rtu_parse_request_t() {
+    rtu_parse_kernel::<13>(true);
+}
+
+//@ props: C06
+//@ peer: yes
+//@ timeout: 1500
+//@ fns: serial::frame::RtuParser::parse (resumption across calls), ReadBuffer::peek_at
+//@ bounds: an 8-byte request frame delivered in two parts at every split point k in 0..=8, every buffer offset
+/// the length of a frame is derived identically for every chunking: parsing k bytes, then all 8, gives the
+/// result of parsing all 8 at once
+#[kani::proof]
+#[kani::unwind(12)]
+fn c06_rtu_split_q() {
+    let s: [u8; 8] = kani::any();
+    kani::assume(s[1] >= 1 && s[1] <= 6);
+    let begin: usize = kani::any();
+    kani::assume(begin + 8 <= CAP);
+    let k: usize = kani::any();
+    kani::assume(k <= 8);
+    let mut p = RtuParser::new_request_parser();
+    let mut part = buffer_with(&s, k, begin);
+    let r1 = p.parse(&mut part, FrameDecodeLevel::Nothing);
+    let consumed = begin_of(&part) - begin;
+    if k < 8 {
+        assert!(matches!(r1, Ok(None)), "[C06] an incomplete frame is never acted on");
+        assert!(consumed <= 1, "[C06] only the address byte may be consumed early");
+    }
+    let mut full = buffer_with(&s, 8, begin);
+    let _ = full.read(if k < 8 { consumed } else { 0 });
+    let mut q = RtuParser::new_request_parser();
+    if k < 8 {
+        q.state = p.state;
+    }
+    let r2 = q.parse(&mut full, FrameDecodeLevel::Nothing);
+    let want = ref_rtu(true, &s, 8);
+    match (&r2, want) {
+        (Ok(Some(f)), RefRtu::Frame(8)) => {
+            assert!(f.payload().len() == 5 && f.payload()[0] == s[1] && f.payload()[4] == s[5], "[C06] same frame for every chunking");
+            assert!(begin_of(&full) - begin == 8);
+        }
+        (Err(_), RefRtu::BadCrc(8)) => {}
+        _ => assert!(false, "[C06] result depends on the chunking"),
+    }
+    kani::cover!(k == 1 && matches!(want, RefRtu::Frame(_)), "split after the address byte");
+    kani::cover!(k == 7 && matches!(want, RefRtu::Frame(_)), "split inside the CRC");
+}
+
+//@ props: C06
+//@ tier: thorough
+//@ timeout: 3600
+//@ fns: (reference polynomial only; tied to the code by c06_crc_step_lemma and c06_rtu_parse_*)
+//@ bounds: all error positions within a 256-byte frame: distances 1..=2064 bits; all burst patterns of <= 16 bits
+/// detection power of CRC-16/MODBUS (generator x^16+x^15+x^2+1): x^d mod G != 1 for d in 1..=2064 (every 2-bit
+/// error changes the CRC), x^d mod G != 0 (1-bit), and every non-zero polynomial of degree < 16 is non-zero mod G
+/// (bursts of <= 16 bits)
+#[kani::proof]
+#[kani::unwind(2070)]
+fn c06_crc_detection_lemma() {
+    // LFSR in the non-reflected domain: r = x^d mod G
+    let g: u32 = 0x18005;
+    let mut r: u32 = 1;
+    let mut d = 1;
+    while d <= 2064 {
+        r <<= 1;
+        if r & 0x10000 != 0 {
+            r ^= g;
+        }
+        assert!(r != 1, "[C06] x^d mod G != 1: every double-bit error within 256 bytes is detected");
+        assert!(r != 0, "[C06] x^d mod G != 0: every single-bit error is detected");
+        d += 1;
+    }
+    let burst: u16 = kani::any();
+    kani::assume(burst != 0);
+    // deg(burst) < 16 = deg(G)  =>  burst mod G == burst != 0, at any position (x is invertible mod G since G(0) = 1)
+    assert!((burst as u32) < 0x10000 && (g & 1) == 1, "[C06] every burst of <= 16 bits is detected");
+    kani::cover!(burst == 0xFFFF, "full-width burst");
+    kani::cover!(d == 2065, "all distances visited");
+}
+
+//@ props: C06
+//@ peer: yes
+//@ tier: thorough
+//@ timeout: 3600
+//@ fns: serial::frame::RtuParser::parse (CRC comparison) on corrupted frames
+//@ bounds: every valid 8-byte request frame x every error pattern with 1 or 2 flipped bits or a burst confined to 16 consecutive bits
+/// any corruption the CRC detects causes no accepted frame: decided on the REAL parser, not on the polynomial
+#[kani::proof]
+#[kani::unwind(12)]
+fn c06_corruption_rejected_t() {
+    let mut s: [u8; 8] = kani::any();
+    kani::assume(s[1] >= 1 && s[1] <= 6);
+    let mut crc = 0xFFFFu16;
+    let mut i = 0;
+    while i < 6 {
+        crc = tab_crc_step(crc, s[i]);
+        i += 1;
+    }
+    s[6] = crc as u8;
+    s[7] = (crc >> 8) as u8;
+    // error pattern: a 16-bit window at a symbolic bit position holding any non-zero pattern
+    // (covers all 1-bit errors, all bursts <= 16 bits and 2-bit errors at distance < 16), or two single bits anywhere
+    let e: u64 = if kani::any() {
+        let pat: u16 = kani::any();
+        let pos: u32 = kani::any();
+        kani::assume(pat != 0 && pos <= 48);
+        (pat as u64) << pos
+    } else {
+        let a: u32 = kani::any();
+        let b: u32 = kani::any();
+        kani::assume(a < 64 && b < 64 && a != b);
+        (1u64 << a) | (1u64 << b)
+    };
+    let mut c = s;
+    let mut j = 0;
+    while j < 8 {
+        c[j] ^= (e >> (8 * j)) as u8;
+        j += 1;
+    }
+    // keep the corrupted function code in the fixed-length family so that the frame is still 8 bytes long
+    kani::assume(c[1] >= 1 && c[1] <= 6);
+    let mut buf = buffer_with(&c, 8, 0);
+    let mut p = RtuParser::new_request_parser();
+    let r = p.parse(&mut buf, FrameDecodeLevel::Nothing);
+    assert!(!matches!(r, Ok(Some(_))), "[C06] a frame corrupted by 1 bit, 2 bits or a burst of <= 16 bits is never accepted");
+    kani::cover!(e.count_ones() == 1, "single-bit error");
+    kani::cover!(e.count_ones() == 2, "double-bit error");
 }
